@@ -165,6 +165,12 @@ def exec_deform(cfg, pts, conc, D):
             r = LinDeformFixedTempl(templ, interp=interp)(disp).asarray()
         elif api == 'LinDeformFixedDisp':
             r = LinDeformFixedDisp(disp, templ_space=sp, interp=interp)(templ).asarray()
+        elif api == 'LinDeformFixedDisp.inverse':
+            # documented: "inverse deformation using -v as displacement" - so the inverse of the deformation by -v IS the
+            # deformation by v, with the interpolation scheme the user chose for the operator
+            r = LinDeformFixedDisp(-disp, templ_space=sp, interp=interp).inverse(templ).asarray()
+        elif api == 'LinDeformFixedDisp.inverse.inverse':
+            r = LinDeformFixedDisp(disp, templ_space=sp, interp=interp).inverse.inverse(templ).asarray()
         else:
             raise ValueError(api)
         r = np.asarray(r)
@@ -422,7 +428,8 @@ def plans_deform(case, rot, thorough):
     real = L.is_real_vals(cfg['f'])
     dts = (['float64'] + (['float32'] if D <= 256 else [])) if real else ['complex128']
     # (in-place evaluation of the two operator classes is the open finding KF-C03-3: they are called out-of-place)
-    apis = ['linear_deform', 'linear_deform_out', 'LinDeformFixedTempl', 'LinDeformFixedDisp']
+    apis = ['linear_deform', 'linear_deform_out', 'LinDeformFixedTempl', 'LinDeformFixedDisp',
+            'LinDeformFixedDisp.inverse', 'LinDeformFixedDisp.inverse.inverse']
     layouts = ['C', 'F', 'strided', 'FT']
     out = []
     combos = [(dt, api, lay) for dt in dts for api in apis for lay in layouts]
@@ -431,9 +438,11 @@ def plans_deform(case, rot, thorough):
         pick = [(rot * 5) % n, (rot * 5 + 7) % n]
         combos = [combos[i] for i in pick]
         if not any(lay in ('F', 'FT') for _, _, lay in combos):
-            combos.append((dts[rot % len(dts)], apis[rot % 4], 'F'))
+            combos.append((dts[rot % len(dts)], apis[rot % len(apis)], 'F'))
         if not any(lay == 'C' for _, _, lay in combos):
-            combos.append((dts[0], apis[(rot + 1) % 4], 'C'))
+            combos.append((dts[0], apis[(rot + 1) % len(apis)], 'C'))
+        if not any(api.startswith('LinDeformFixedDisp.') for _, api, _ in combos):     # a derived operator for every case
+            combos.append((dts[rot % len(dts)], apis[4 + rot % 2], layouts[rot % 4]))
     for j, (dt, api, lay) in enumerate(combos):
         out.append(({'k': 'deform', 'cfg': cfg, 'pts': q['pts'], 'D': D, 'schemes': cfg['schemes'],
                      'conc': {'api': api, 'dtype': dt, 'interp_as': ['str', 'list'][(rot + j) % 2], 'layout': lay,
